@@ -138,11 +138,57 @@ func (ex *Exec) staticCall(st *State, fr *Frame, callee *ssa.Function, binds []*
 	if cs.Assumed {
 		ex.trusted["assumed contract: "+shortKey(key)] = true
 	}
-	saved := ex.env.subst
-	ex.env.subst = subst
-	res := ex.callContract(st, fr, cs, body.Signature, body, args, instr)
-	ex.env.subst = saved
-	k(st, res)
+	ex.invokeFuncArgs(st, fr, cs, body.Signature, args, instr, 0, func(st *State) {
+		saved := ex.env.subst
+		ex.env.subst = subst
+		res := ex.callContract(st, fr, cs, body.Signature, body, args, instr)
+		ex.env.subst = saved
+		k(st, res)
+	})
+}
+
+// invokeFuncArgs: `invokes p` in the contract of an assumed higher-order function (redis Watch/TxPipelined):
+// the function value passed as p is called once during the call, with arbitrary non-nil arguments; it is
+// executed here (by its contract, or in place if it is a closure without one) before the callee's own
+// contract is applied, so that obligations inside the callback are generated in the caller's context.
+func (ex *Exec) invokeFuncArgs(st *State, fr *Frame, cs *FuncSpec, sig *types.Signature, args []*Val, instr ssa.Instruction, n int, k func(st *State)) {
+	if n >= len(cs.Invokes) {
+		k(st)
+		return
+	}
+	off := 0
+	if sig.Recv() != nil {
+		off = 1
+	}
+	var fv *Val
+	for j := 0; j < sig.Params().Len(); j++ {
+		name := sig.Params().At(j).Name()
+		if j < len(cs.ParamNames) {
+			name = cs.ParamNames[j]
+		}
+		if name == cs.Invokes[n] && off+j < len(args) {
+			fv = args[off+j]
+		}
+	}
+	if fv == nil || fv.Fn == nil {
+		panic(oos("invokes " + cs.Invokes[n] + " of " + shortKey(cs.Key) + ": the argument is not a known function"))
+	}
+	var fargs []*Val
+	alloc := ex.allocArr(st)
+	for i, p := range fv.Fn.Params {
+		v := ex.freshVal(p.Type(), fmt.Sprintf("cb%d %s", ex.nfresh, p.Name()))
+		ex.nfresh++
+		st.assume(ex.typeInv(p.Type(), v, alloc))
+		if isRefType(ex.env.resolve(p.Type())) && v.T != nil {
+			st.assume(Neq(v.T, IntLit(0)))
+		}
+		_ = i
+		fargs = append(fargs, v)
+	}
+	ex.trusted["assumed: "+shortKey(cs.Key)+" calls the function passed as "+cs.Invokes[n]+" once, with non-nil arguments"] = true
+	ex.staticCall(st, fr, fv.Fn, fv.Bind, fargs, instr, func(st2 *State, _ *Val) {
+		ex.invokeFuncArgs(st2, fr, cs, sig, args, instr, n+1, k)
+	})
 }
 
 // hasLoop: does the function's control-flow graph contain a cycle?
